@@ -115,3 +115,54 @@ func H_C09_Check() {
 	v.Assert(err2 != nil, "never valid for another group")
 	v.Reach("end")
 }
+
+// model of ParseKey (base64 / big-integer / curve arithmetic: library code):
+// a key parses to its identifying label.
+func zzParseKey(key map[string]any) (any, error) { return key["id"], nil }
+
+var zzKeyAlgs = []string{"HS256", "RS256", "ES256", ""} // "" = no alg declared
+var zzKeyKids = []string{"", "a", "b"}                  // "" = no kid
+
+// H_C09_KeySelect: which of a group's keys may verify a signed token.  For
+// every set of two keys (each declared for one of three algorithms or none,
+// with or without key id) and every token header (algorithm incl. "none"
+// and mismatched ones, with or without kid), the keys handed to the
+// signature check are EXACTLY those declared for the header's algorithm
+// (and carrying the header's kid if it names one): a key is never used with
+// an algorithm other than the one declared for it, and "none" selects nothing.
+func H_C09_KeySelect() {
+	var keys []map[string]any
+	var kalg, kkid []string
+	for i := 0; i < 2; i++ {
+		a := zzKeyAlgs[v.Choice(v.Idx("kalg", i), len(zzKeyAlgs))]
+		k := zzKeyKids[v.Choice(v.Idx("kkid", i), len(zzKeyKids))]
+		key := map[string]any{"id": []string{"k0", "k1"}[i], "kty": "oct"}
+		if a != "" {
+			key["alg"] = a
+		}
+		if k != "" {
+			key["kid"] = k
+		}
+		keys = append(keys, key)
+		kalg = append(kalg, a)
+		kkid = append(kkid, k)
+	}
+	alg := []string{"HS256", "RS256", "none", "HS384"}[v.Choice("alg", 4)]
+	kid := []string{"", "a"}[v.Choice("kid", 2)]
+	ks, err := ParseKeys(keys, alg, kid)
+	v.Assert(err == nil, "selection itself does not fail")
+	for i := 0; i < 2; i++ {
+		want := kalg[i] == alg && (kid == "" || kkid[i] == kid)
+		got := false
+		for _, k := range ks {
+			if s, ok := k.(string); ok && s == []string{"k0", "k1"}[i] {
+				got = true
+			}
+		}
+		v.Assert(got == want, "a key is offered to the signature check exactly if it is declared for the token's algorithm (and has the token's key id, if any)")
+	}
+	if alg == "none" {
+		v.Assert(len(ks) == 0, "the algorithm 'none' selects no key")
+	}
+	v.Reach("end")
+}
